@@ -22,14 +22,14 @@ META = {
     "assumptions": ["global registries (validators, meta_schemas, FormatChecker.checkers) are snapshotted and restored around each path"],
 }
 
-N_OPS = 9
+N_OPS = 10
 
 
 def probe_cls(cls, x, d):
     """behavioural probes of a validator class"""
     idk = "id" if d in (3, 4) else "$id"
     ref_schema = {idk: "http://a.test/b", "properties": {"q": {"$ref": "http://a.test/b#/definitions/z"}}, "definitions": {"z": {"maximum": 0}}}   # resolvable only if the class looks for ids in the right place
-    out = []
+    out = [sorted((k, getattr(v, "__name__", str(v))) for k, v in cls._DEFAULT_TYPES.items())]     # the deprecated class-level mapping
     for schema, inst in (({"type": "integer"}, x), ({"type": "string"}, x), ({"minimum": 3}, x), ({"maximum": 3}, x),
                          ({"type": "number"}, True), (ref_schema, {"q": x})):
         try:
@@ -101,16 +101,22 @@ def history(d, n, kind="int"):
                     elif o == 6:
                         with warnings.catch_warnings():
                             warnings.simplefilter("ignore")
-                            v = parent({"type": "integer"}, types={"integer": str})
+                            v = parent({"type": "integer"}, types={"integer": str, "array": (list, tuple)})
                         insts.append((v, [v.is_valid(x), v.is_valid("s")]))
+                        if [v.is_valid(x), v.is_valid("s")] != [isinstance(x, str), True]:
+                            return False, "n%d" % n
                     elif o == 7:
                         fcn = fcs[-1][0]
                         fcn.checks("zzz-even")(lambda i: not isinstance(i, int) or i % 2 == 0)
                         fcs[-1] = (fcn, probe_fc(fcn, x))            # the instance itself changed, as documented
                         new_fc = FormatChecker(formats=["email"])
-                    else:
+                    elif o == 8:
                         FormatChecker.cls_checks("zzz-even")(lambda i: False)
                         new_fc = FormatChecker()
+                    else:
+                        with warnings.catch_warnings():
+                            warnings.simplefilter("ignore")
+                            new_cls = validators.create(parent.META_SCHEMA, parent.VALIDATORS, id_of=parent.ID_OF)      # default types
                 except UndefinedTypeCheck:
                     pass                                                 # removing a type twice is a documented error
                 except Exception as e:
@@ -121,12 +127,21 @@ def history(d, n, kind="int"):
                         return False, "n%d" % n
                     if o == 1:
                         want = list(clss[-1][1])
-                        want[2] = True               # only the overridden keyword changes
+                        want[3] = True               # only the overridden keyword changes (probe 0 is the deprecated type mapping)
                         if rec != want:
                             return False, "n%d" % n
                     clss.append((new_cls, rec))
                 if new_tc is not None:
-                    tcs.append((new_tc, probe_tc(new_tc, x)))
+                    rec = probe_tc(new_tc, x)
+                    prev = tcs[-1][1]
+                    # what the derivation must mean, independently of any lookup made earlier on the parent
+                    if o == 2 and (rec[0] is not True or rec[1:] != prev[1:]):
+                        return False, "n%d" % n
+                    if o == 3 and (rec[1] != "undefined" or rec[0] != prev[0] or rec[2:] != prev[2:]):
+                        return False, "n%d" % n
+                    if o == 4 and (rec[1] is not False or rec[3] != isinstance(x, int) or rec[0] != prev[0] or rec[2] != prev[2]):
+                        return False, "n%d" % n
+                    tcs.append((new_tc, rec))
                 if new_fc is not None:
                     fcs.append((new_fc, probe_fc(new_fc, x)))
                 # every earlier object still answers as recorded
